@@ -101,9 +101,9 @@ def run_config(chk, config):
         for ws, _ in wrets:
             wt = layout.wtokens(engw, ws)
             wc = layout.canon_writer(engw, ws, wt)[1:]           # without the attribute type
-            size = Lin.const(0)
+            size = Lin.const(-2)                                 # (everything emitted except the two attribute-type octets)
             extra = list(ws.cons)
-            for t in wt[1:]:
+            for t in wt:
                 size = size + t["n"]
                 if t["k"] == "bytes" and not t["n"].is_const():
                     extra.append(c_le(Lin.const(1), t["n"]))      # variable parts are non-empty in the encodable domain
